@@ -73,7 +73,7 @@ theorem openB_stepSE (st : PState) (o : PToken) (nodes' : Array ParseNode) (info
 theorem side_body (stp : PState) (o c : PToken) (nodes' : Array ParseNode) (info : Info) (body : Ex)
     (wsA wsB : List PToken) (hsz : nodes'.size = stp.nodes.size) (hir : info.right = some (stp.nodes.size + 1))
     (hnnl : stp.nextLastLeft = none) (hprios : AllPrio nodes') (hc : c.type = .endSideEffect)
-    {L C : Bool} (hbody : body.ok L C = true) (hwA : ∀ w ∈ wsA, isTriviaTok w = true) (hwB : ∀ w ∈ wsB, isTriviaTok w = true)
+    {F : Fl} (hbody : body.ok F false = true) (hwA : ∀ w ∈ wsA, isTriviaTok w = true) (hwB : ∀ w ∈ wsB, isTriviaTok w = true)
     (pos : Nat) (hnum : NumberedFrom pos body.toks) (rest : List PToken) :
     ∃ (st2 : PState) (E : Tree) (re : Nat) (S : ParseNode),
       loop (stepSE stp o nodes' info) (wsA ++ (body.toks ++ (wsB ++ [c])) ++ rest) = loop st2 rest ∧
@@ -81,25 +81,32 @@ theorem side_body (stp : PState) (o c : PToken) (nodes' : Array ParseNode) (info
       st2.nodes[stp.nodes.size]? = some S ∧ S.definition = .sideEffect ∧ S.parent = info.parent ∧ S.left = info.left ∧
       S.right = some re ∧ S.lexToken = o ∧
       IsTreeAt st2.nodes (some stp.nodes.size) (some re) E ∧
-      E.inorder = List.range' (stp.nodes.size + 1) (st2.nodes.size - (stp.nodes.size + 1)) ∧
+      SortedIn (stp.nodes.size + 1) st2.nodes.size E.inorder ∧
       stp.nodes.size + 1 < st2.nodes.size ∧ AllPrio st2.nodes ∧
       st2.groupStack = stp.groupStack ∧ st2.previousSecondDef = .endSideEffect ∧
-      st2.checkForList = stp.checkForList ∧
+      st2.checkForList = stp.checkForList ∧ st2.lastLeft = some stp.nodes.size ∧ st2.nextLastLeft = none ∧
+      st2.currentGroup = (if stp.groupStack.isEmpty then none else some (stp.groupStack.size - 1)) ∧
       refLoop Table.gen Frame.top [] pos body.toks = .ok (toRG (dfOf st2.nodes) E) := by
   obtain ⟨hOO, hfs, hpriosO, hcgO⟩ := openB_stepSE stp o nodes' info hsz hir hnnl hprios
   have hgO : (stepSE stp o nodes' info).nodes[stp.nodes.size]? =
       some ⟨.sideEffect, .startSideEffect, info.parent, info.left, info.right, o⟩ := by
     simp only [stepSE]; rw [Array.getElem?_push, if_pos hsz.symm]
-  obtain ⟨sO', hloopA, hOO', hnO', hnpO', hllO', hgsO', hcgO'⟩ :=
-    trivia_runB wsA (stepSE stp o nodes' info) (some stp.nodes.size) (body.toks ++ (wsB ++ [c]) ++ rest) hOO
-      (by simp [stepSE]) hwA (by simp [body.toks_ne])
+  obtain ⟨sO', hloopA, hOO', hnO', hnpO', hllO', hgsO', hcgO', hprevO'⟩ :=
+    trivia_runB_prev wsA (stepSE stp o nodes' info) (some stp.nodes.size) (body.toks ++ (wsB ++ [c]) ++ rest) hOO
+      (by simp [stepSE]) hwA
+  have hspO : StartPrev sO' := by
+    rcases hprevO' with h | h | h
+    · exact Or.inr (Or.inr (Or.inl (by rw [h]; rfl)))
+    · exact Or.inr (Or.inr (Or.inr (Or.inl h)))
+    · exact Or.inr (Or.inr (Or.inr (Or.inr (Or.inl h))))
   have hfs' : FrameStart sO' (some stp.nodes.size) (some stp.nodes.size) (stp.nodes.size + 1) := by
     cases hfs with
     | bracket g G pg h1 h2 h3 h4 h5 h6 =>
       exact .bracket _ G pg (by rw [hnO']; exact h1) (by rw [hnpO']; exact h2) (by rw [hnO']; exact h3) h4 h5 h6
   obtain ⟨stE, E, re, cbE, hloopE, hinvE, hgsE, hcgE, ho1E, ho2E, hrdE, hrefE⟩ :=
-    (ex_ok body hbody).1 sO' _ _ _ hOO' hfs' (by rw [hnO']; exact hpriosO)
-      (by unfold CGOK at hcgO ⊢; rw [hcgO', hgsO']; exact hcgO) pos hnum ((wsB ++ [c]) ++ rest)
+    (ex_ok body false hbody).1 sO' _ _ _ hOO' hfs' (by rw [hnO']; exact hpriosO)
+      (by unfold CGOK at hcgO ⊢; rw [hcgO', hgsO']; exact hcgO)
+      ⟨_, by rw [hnO']; exact hgO, rfl⟩ hspO pos hnum ((wsB ++ [c]) ++ rest)
   obtain ⟨stE', hloopB, hinvE', hnE', hgsE', hcgE'⟩ := trivia_runU wsB stE ([c] ++ rest) hinvE hwB
   have hgE : ∃ G', stE.nodes[stp.nodes.size]? = some G' ∧ G'.right = some re ∧
       G'.definition = .sideEffect ∧ G'.parent = info.parent ∧ G'.left = info.left ∧ G'.lexToken = o := by
@@ -109,7 +116,7 @@ theorem side_body (stp : PState) (o c : PToken) (nodes' : Array ParseNode) (info
       have := ho2E stp.nodes.size (by omega)
       rw [hG', hnO', hgO] at this
       simp only [Option.map_some, Option.some.injEq] at this
-      obtain ⟨e1, e2, e3, e4⟩ := setRight_none_eq this
+      obtain ⟨e1, e2, e3, e4, _⟩ := setRight_none_eq this
       exact ⟨e1, e2, e3, e4⟩
   obtain ⟨G', hG', hGr', hGd', hGp', hGl', hGt'⟩ := hgE
   have hback : stE'.groupStack.back? = some (stp.nodes.size, stp.checkForList) := by
@@ -122,7 +129,7 @@ theorem side_body (stp : PState) (o c : PToken) (nodes' : Array ParseNode) (info
     show stE'.nodes[_]? = _
     rw [hnE']; exact hG'
   refine ⟨stepC stE' stp.nodes.size stp.checkForList c, E, re, G', ?_, ?_, hS2, hGd', hGp', hGl', hGr', hGt', ?_, ?_, ?_,
-    ?_, ?_, hsd, rfl, ?_⟩
+    ?_, ?_, hsd, rfl, rfl, hinvE'.nnl, ?_, ?_⟩
   · have e2 : wsA ++ (body.toks ++ (wsB ++ [c])) ++ rest = wsA ++ (body.toks ++ (wsB ++ [c]) ++ rest) := by simp
     have e3 : body.toks ++ (wsB ++ [c]) ++ rest = body.toks ++ ((wsB ++ [c]) ++ rest) := by simp
     have e4 : (wsB ++ [c]) ++ rest = wsB ++ ([c] ++ rest) := by simp
@@ -135,7 +142,7 @@ theorem side_body (stp : PState) (o c : PToken) (nodes' : Array ParseNode) (info
     rw [if_neg (by omega)]
   · show IsTreeAt stE'.nodes _ _ _
     rw [hnE']; exact hinvE.n.tree
-  · show E.inorder = List.range' _ (stE'.nodes.size - _)
+  · show SortedIn _ stE'.nodes.size E.inorder
     rw [hnE']; exact hinvE.n.inord
   · show _ < stE'.nodes.size
     rw [hnE']; exact hinvE.n.pos
@@ -144,9 +151,14 @@ theorem side_body (stp : PState) (o c : PToken) (nodes' : Array ParseNode) (info
   · show stE'.groupStack.pop = stp.groupStack
     rw [hgsE', hgsE, hgsO']
     simp [stepSE]
+  · show (if stE'.groupStack.pop.isEmpty then none else some (stE'.groupStack.pop.size - 1)) = _
+    have : stE'.groupStack.pop = stp.groupStack := by
+      rw [hgsE', hgsE, hgsO']
+      simp [stepSE]
+    rw [this]
   · show _ = Outcome.ok (toRG (dfOf stE'.nodes) E)
     rw [hnE']
-    have := hrefE Frame.top [] [] rfl rfl
+    have := hrefE Frame.top [] [] rfl rfl rfl
     simp only [List.append_nil] at this
     rw [this]
     unfold refLoop
@@ -184,16 +196,16 @@ theorem getLast_of_eq_append {l init : List PToken} {t : PToken} (hne : l ≠ []
 
 theorem comp_endSE (c : Bool) : checkComposition .endSideEffect .none c = true := by cases c <;> rfl
 
-theorem nodup_cons_range' (a b n : Nat) (h : a < b) : (a :: List.range' b n).Nodup := by
+theorem nodup_cons_sorted (a b c : Nat) (l : List Nat) (h : a < b) (hl : SortedIn b c l) : (a :: l).Nodup := by
   rw [List.nodup_cons]
-  refine ⟨?_, List.nodup_range' ..⟩
+  refine ⟨?_, hl.nodup⟩
   intro hm
-  rw [List.mem_range'_1] at hm
+  have := (hl.2 a hm).1
   omega
 
 /-- **`[ body ]`**: the model of `parse` accepts; the result is the SideEffect node with the tree of the body below it -/
 theorem parse_block (o c : PToken) (wsA wsB : List PToken) (body : Ex) (ho : o.type = .startSideEffect)
-    (hc : c.type = .endSideEffect) {L C : Bool} (hbody : body.ok L C = true) (hwA : ∀ w ∈ wsA, isTriviaTok w = true)
+    (hc : c.type = .endSideEffect) {F : Fl} (hbody : body.ok F false = true) (hwA : ∀ w ∈ wsA, isTriviaTok w = true)
     (hwB : ∀ w ∈ wsB, isTriviaTok w = true)
     (hnum : NumberedFrom 0 (o :: (wsA ++ (body.toks ++ (wsB ++ [c]))))) :
     ∃ r t, parse (o :: (wsA ++ (body.toks ++ (wsB ++ [c])))) = .ok r ∧ toTree r = some (.node .nil 0 o.col t) ∧
@@ -215,7 +227,7 @@ theorem parse_block (o c : PToken) (wsA wsB : List PToken) (body : Ex) (ho : o.t
       PState.init.nodes none false = .ok (#[], ⟨.sideEffect, none, none, some 1⟩) :=
     parseToken_empty (q := 5) rfl
   have hstep := step_sideOpen PState.init none o ho rfl rfl rfl rfl hpt
-  obtain ⟨st2, E, re, S, hloop, _, hS, hSd, hSp, hSl, hSr, hSt, htreeE, hinE, hszE, _, hgs2, hprev2, _, href⟩ :=
+  obtain ⟨st2, E, re, S, hloop, _, hS, hSd, hSp, hSl, hSr, hSt, htreeE, hinE, hszE, _, hgs2, hprev2, _, _, _, _, href⟩ :=
     side_body PState.init o c #[] ⟨.sideEffect, none, none, some 1⟩ body wsA wsB rfl rfl rfl
       (by intro i nd h; simp at h) hc hbody hwA hwB _ hnumB []
   have hsz0 : PState.init.nodes.size = 0 := rfl
@@ -224,8 +236,8 @@ theorem parse_block (o c : PToken) (wsA wsB : List PToken) (body : Ex) (ho : o.t
   have htree : IsTreeAt st2.nodes none (some 0) (.node .nil 0 o.col E) := by
     refine isTreeAt_node S hS hSp (by rw [hSl]; exact .nil _) (by rw [hSr]; exact htreeE) (by simp [tokPos, hSt])
   have hnd : (Tree.node .nil 0 o.col E).inorder.Nodup := by
-    simp only [Tree.inorder, List.nil_append, hinE]
-    exact nodup_cons_range' 0 1 _ (by omega)
+    simp only [Tree.inorder, List.nil_append]
+    exact nodup_cons_sorted 0 1 _ _ (by omega) hinE
   obtain ⟨r, hr, ht, hn⟩ := finish_gen (st := st2) (by rw [hprev2]; exact comp_endSE _) hgs2 htree hnd
     (by simp [Tree.inorder]) (by omega)
   refine ⟨r, E, ?_, ht, by rw [hn]; simp [dfOf, hS, hSd], by rw [hn]; exact href⟩
